@@ -138,6 +138,24 @@ fn one_bit_off() -> Vec<(&'static str, Option<Vec<u8>>)> {
                     v.push((name, x));
                 }
             }
+            // the same multiset of bytes in another order, and the same bit flipped in two positions: every
+            // comparison that folds the bytes into one accumulator has to keep these apart
+            for i in 0..base.len() - 1 {
+                if base[i] == 0 || base[i + 1] == 0 || base[i] == base[i + 1] {
+                    continue;
+                }
+                let mut x = base.clone();
+                x.swap(i, i + 1);
+                let name: &'static str = Box::leak(format!("transposed(bytes {i},{})", i + 1).into_boxed_str());
+                v.push((name, x));
+            }
+            for (i, j) in [(1usize, 2usize), (6, 7), (6, 13)] {
+                let mut x = base.clone();
+                x[i] ^= 0x20;
+                x[j] ^= 0x20;
+                let name: &'static str = Box::leak(format!("same-bit-flipped-twice(bytes {i},{j})").into_boxed_str());
+                v.push((name, x));
+            }
             v
         })
         .iter()
@@ -373,6 +391,8 @@ pub struct LObs {
     pub wire: Vec<String>,
     pub trace: Vec<String>,
     pub cross: Option<String>,
+    /// what the client wrote, write by write
+    pub client_chunks: Vec<Vec<u8>>,
 }
 
 fn lib_items(pipe: &Pipe) -> Vec<Item> {
@@ -403,7 +423,7 @@ fn last_challenge(items: &[Item]) -> Option<String> {
     })
 }
 
-async fn listener_scenario<S: SaslAcceptor + 'static>(acceptor: ConnectionAcceptor<(), S>, kind: LKind, seq: Vec<Act>, burst: bool) -> LObs {
+async fn listener_scenario<S: SaslAcceptor + 'static>(acceptor: &ConnectionAcceptor<(), S>, kind: LKind, seq: Vec<Act>, burst: bool) -> LObs {
     let mut obs = LObs::default();
     let (pipe, a, _b) = Pipe::new();
     let mut peer = Peer::new(pipe.clone(), 1, Auto::none());
@@ -553,8 +573,58 @@ async fn listener_scenario<S: SaslAcceptor + 'static>(acceptor: ConnectionAccept
     };
     obs.trace = trace_to_strings(&peer.trace);
     obs.trace.push(format!("accept() = {}", obs.result));
+    obs.client_chunks = pipe.log().into_iter().filter(|e| e.dir == 1).map(|e| e.bytes).collect();
     drop(result);
     obs
+}
+
+/// Replay across connections: one acceptor (one configured `ScramAuthenticator`) serves two connections.  On the
+/// first an honest client authenticates; on the second a client that does NOT know the password writes exactly
+/// the bytes the first one wrote (stepwise, or all at once).  The second accept() must fail: a proof is bound to
+/// the nonces of its own exchange.  (OS randomness is the deterministic per-thread stream of the shim: successive
+/// draws differ, so two honest exchanges in one execution get different server nonces.)
+async fn scram_replay_scenario(v: Ver, burst: bool) -> (LObs, String, Vec<u8>, Vec<String>) {
+    let kind = LKind::Scram(v);
+    let acc = ConnectionAcceptor::builder().container_id("c19-listener").sasl_acceptor(ScramAuthenticator::new(scram_credential(v))).build();
+    let honest = vec![Act::HSasl, Act::Init(0, 0), Act::Resp(0), Act::HAmqp, Act::Open];
+    let first = listener_scenario(&acc, kind, honest, false).await;
+    let (pipe, a, _b) = Pipe::new();
+    let fut = acc.accept(a);
+    tokio::pin!(fut);
+    let mut result = None;
+    macro_rules! rounds {
+        ($n:expr) => {
+            for _ in 0..$n {
+                if result.is_none() {
+                    tokio::select! {
+                        biased;
+                        r = &mut fut => { result = Some(r); }
+                        _ = tokio::time::sleep(Duration::from_millis(1)) => {}
+                    }
+                } else {
+                    tokio::time::sleep(Duration::from_millis(1)).await;
+                }
+            }
+        };
+    }
+    rounds!(2);
+    for chunk in &first.client_chunks {
+        pipe.push_bytes(1, chunk);
+        if !burst {
+            rounds!(3);
+        }
+    }
+    rounds!(8);
+    let items = lib_items(&pipe);
+    let outcomes = outcome_codes(&items);
+    let res = match &result {
+        None => "pending".to_string(),
+        Some(Ok(_)) => "ok".to_string(),
+        Some(Err(e)) => format!("err {e:?}"),
+    };
+    let wire = items.iter().map(|i| i.short()).collect();
+    drop(result);
+    (first, res, outcomes, wire)
 }
 
 fn scram_credential(v: Ver) -> Arc<SingleScramCredential> {
@@ -590,14 +660,14 @@ fn run_listener_case(kind: LKind, seq: &[Act], burst: bool) -> CaseRun<LObs> {
                         .container_id("c19-listener")
                         .sasl_acceptor(SaslPlainMechanism::new(USER, PASSWORD))
                         .build();
-                    listener_scenario(acc, kind, seq, burst).await
+                    listener_scenario(&acc, kind, seq, burst).await
                 }
                 LKind::Scram(v) => {
                     let acc = ConnectionAcceptor::builder()
                         .container_id("c19-listener")
                         .sasl_acceptor(ScramAuthenticator::new(scram_credential(v)))
                         .build();
-                    listener_scenario(acc, kind, seq, burst).await
+                    listener_scenario(&acc, kind, seq, burst).await
                 }
             }
         })
@@ -1382,6 +1452,40 @@ pub fn run(ctx: &Ctx) -> Outcome {
         if ctx.quick() { "honest + every single tamper + non-OK codes without data" } else { "full product of nonce x signature-basis x additional-data form x outcome code x extra challenge, + early outcomes" },
         n
     ));
+    // ---- part 3: a recorded successful SCRAM exchange replayed on a second connection of the same acceptor
+    let mut replays = 0u64;
+    for v in VERSIONS {
+        for burst in [false, true] {
+            scram_credential(v);
+            let scen: Scenario<(LObs, String, Vec<u8>, Vec<String>)> = Arc::new(move || Box::pin(scram_replay_scenario(v, burst)));
+            let ex = run_exec(vec![], &RunCfg::none(), &scen);
+            replays += 1;
+            acc.executions += 1;
+            let rep = json!({"part": "replay", "version": v.mech(), "burst": burst});
+            match ex.out {
+                None => acc.machinery(format!("replay scenario {} burst={burst} died: {:?}", v.mech(), ex.panics)),
+                Some((first, res, outcomes, wire)) => {
+                    if !first.accept_ok {
+                        acc.machinery(format!("replay scenario {}: the honest first exchange did not authenticate: {:?}", v.mech(), first.trace));
+                    } else if res == "ok" || outcomes.contains(&0) {
+                        acc.violation(
+                            format!("listener: replayed-exchange-accepted {}", v.mech()),
+                            format!(
+                                "one acceptor, two connections: an honest client authenticated on the first; a client that only replays the bytes of that exchange ({}) on the second got outcome codes {:?} and accept() = {res}; the listener wrote {:?}",
+                                if burst { "in one burst" } else { "write by write" },
+                                outcomes,
+                                wire
+                            ),
+                            rep,
+                        );
+                    } else {
+                        acc.count("replayed_exchanges_refused", 1);
+                    }
+                }
+            }
+        }
+    }
+    bound_parts.push(format!("SCRAM replay across two connections of one acceptor: {replays} cases (3 hash functions x stepwise / burst)"));
     // ---- validation of the pruning: the same enumeration without pruning, to a smaller depth
     let before_unpruned = acc.executions;
     for kind in LKINDS {
@@ -1432,6 +1536,20 @@ fn replay(p: &std::path::Path, mut out: Outcome) -> Outcome {
     let r = if j.get("replay").is_some() { j["replay"].clone() } else { j.clone() };
     let mut acc = Acc::default();
     match r["part"].as_str() {
+        Some("replay") => {
+            let v = VERSIONS.iter().copied().find(|v| Some(v.mech()) == r["version"].as_str()).unwrap_or(VERSIONS[0]);
+            let burst = r["burst"].as_bool().unwrap_or(false);
+            scram_credential(v);
+            let scen: Scenario<(LObs, String, Vec<u8>, Vec<String>)> = Arc::new(move || Box::pin(scram_replay_scenario(v, burst)));
+            let ex = run_exec(vec![], &RunCfg::none(), &scen);
+            if let Some((first, res, outcomes, wire)) = ex.out {
+                println!("first connection: accept() ok = {}", first.accept_ok);
+                println!("second connection (replay): accept() = {res}, outcome codes {:?}, listener wrote {:?}", outcomes, wire);
+                if first.accept_ok && (res == "ok" || outcomes.contains(&0)) {
+                    out.violation(format!("listener: replayed-exchange-accepted {}", v.mech()), format!("accept() = {res}, outcomes {:?}", outcomes), r.clone());
+                }
+            }
+        }
         Some("listener") => {
             let Some(kind) = LKINDS.iter().copied().find(|k| Some(k.name()) == r["listener"].as_str()) else {
                 out.machinery_errors.push("replay: unknown listener".into());
